@@ -1088,6 +1088,16 @@ pub fn assume_valid_incoming<const N: usize>(p: &Plain<N>, bid: bool, vol: Vol, 
     assume((if bid { bv } else { av }) + vol as u64 <= u32::MAX as u64);
     assume(p.trade_vol as u64 + vol as u64 <= u32::MAX as u64);
     let _ = (price, discipline);
+    // the stand-in map holds 3 entries per side: an incoming order may rest next to at most 2
+    let mut same = 0usize;
+    let mut j = 0;
+    while j < N {
+        if j < p.n && active(&p.e[j]) && is_bid(p.e[j].order.side) == bid {
+            same += 1;
+        }
+        j += 1;
+    }
+    assume(same <= 2);
 }
 
 // ------------------------------------------------------------------------------------------
@@ -1275,7 +1285,8 @@ pub fn step_cancel<const N: usize, const L: usize>(m: usize, cfg: GenCfg, mask: 
     }
     vcover!(active(&p.e[a]), "cover.cancel_active");
     vcover!(p.e[a].order.status == Status::Filled, "cover.cancel_filled");
-    vcover!(active(&p.e[a]) && active(&p.e[1 - a]) && is_bid(p.e[a].order.side) == is_bid(p.e[1 - a].order.side) && p.e[a].order.price == p.e[1 - a].order.price, "cover.cancel_one_of_two_at_level");
+    let o = if a == 0 { 1 } else { 0 };
+    vcover!(active(&p.e[a]) && active(&p.e[o]) && is_bid(p.e[a].order.side) == is_bid(p.e[o].order.side) && p.e[a].order.price == p.e[o].order.price, "cover.cancel_one_of_two_at_level");
     core::mem::forget(book);
 }
 
@@ -1488,6 +1499,10 @@ vharnesses! {
     #[cfg_attr(kani, kani::unwind(4))]
     fn c02_modify_m2() { step_modify::<3, 2>(2, CFG, G_VIEWS | G_INDEX, 0, false) }
     #[cfg_attr(kani, kani::unwind(4))]
+    fn c02_modify_volume_only_m2() { step_modify::<3, 2>(2, CFG, G_VIEWS | G_INDEX, 1, false) }
+    #[cfg_attr(kani, kani::unwind(4))]
+    fn c02_modify_with_price_m2() { step_modify::<3, 2>(2, CFG, G_VIEWS | G_INDEX, 2, false) }
+    #[cfg_attr(kani, kani::unwind(4))]
     fn c02_uncrossed_place_limit_m2() { step_place_new::<3, 2>(2, ON_UNCROSSED, G_UNCROSSED, 4) }
     #[cfg_attr(kani, kani::unwind(4))]
     fn c02_uncrossed_modify_m2() { step_modify::<3, 2>(2, ON_UNCROSSED, G_UNCROSSED, 0, false) }
@@ -1574,9 +1589,27 @@ vharnesses! {
     fn c12_grid_place_tick3_off_m2() { step_place_new::<3, 2>(2, GenCfg { tick: 3, ..OFF }, G_GRID | G_VIEWS, 4) }
     #[cfg_attr(kani, kani::unwind(4))]
     fn c12_grid_modify_ongrid_tick3_m2() { step_modify::<3, 2>(2, GenCfg { tick: 3, ..CFG }, G_GRID | G_VIEWS, 0, false) }
+    #[cfg_attr(kani, kani::unwind(4))]
+    fn c12_grid_modify_price_tick3_off_m2() { step_modify::<3, 2>(2, GenCfg { tick: 3, ..OFF }, G_GRID | G_VIEWS, 2, false) }
     // modify_order with an ARBITRARY new price (isolates the finding C12.modify_offgrid_price)
     #[cfg_attr(kani, kani::unwind(4))]
     fn c12_modify_any_price_tick3_m2() { step_modify::<3, 2>(2, GenCfg { tick: 3, ..OFF }, G_GRID, 2, true) }
+
+    // ---- thorough tier: 3-entry tables (<= 3 resting orders per side)
+    #[cfg_attr(kani, kani::unwind(5))]
+    fn c01_place_bid_limit_m3() { step_place_new::<4, 2>(3, CFG, G_REF | G_INDEX, 0) }
+    #[cfg_attr(kani, kani::unwind(5))]
+    fn c01_place_ask_limit_m3() { step_place_new::<4, 2>(3, CFG, G_REF | G_INDEX, 1) }
+    #[cfg_attr(kani, kani::unwind(5))]
+    fn c01_place_bid_market_m3() { step_place_new::<4, 2>(3, CFG, G_REF | G_INDEX, 2) }
+    #[cfg_attr(kani, kani::unwind(5))]
+    fn c01_place_ask_market_m3() { step_place_new::<4, 2>(3, CFG, G_REF | G_INDEX, 3) }
+    #[cfg_attr(kani, kani::unwind(5))]
+    fn c01_cancel_m3() { step_cancel::<4, 2>(3, CFG, G_REF | G_INDEX | G_VIEWS) }
+    #[cfg_attr(kani, kani::unwind(5))]
+    fn c06_modify_with_price_m3() { step_modify::<4, 2>(3, CFG, G_REF | G_INDEX, 2, false) }
+    #[cfg_attr(kani, kani::unwind(5))]
+    fn c02_place_bid_limit_l3_m2() { step_place_new::<3, 3>(2, CFG, G_VIEWS | G_INDEX, 0) }
 
     // ---- C07: loading a snapshot (try_from) on an arbitrary order table
     #[cfg_attr(kani, kani::unwind(4))]
